@@ -1,0 +1,17 @@
+//go:build verif
+
+// Contracts for the deductive verifier in /verif (comment-only file; compiled only with -tags verif).
+package arp
+
+// ---------------------------------------------------------------------------------------------
+// C13 / C11: ARP-cache stage. A failed request passes through unchanged (no lookup, same cause); otherwise the
+// MAC is looked up for THIS request's destination address: found -> DstMAC set, no error; not found -> error.
+//@ func (*cacheReqGenerator).GenerateRequests$1
+//@   props C13 C11 C07
+//@   observe getMAC
+//@   loop 0 row closed:  [recv requests as (rq, false) ; close result] -> exit
+//@   loop 0 row errpass: [recv requests as (rq, true) ; send result rq] when pre(rq.Err) != nil && rq.Err == pre(rq.Err) && rq.DstMAC == pre(rq.DstMAC) && rq.DstIP == pre(rq.DstIP) -> continue
+//@   loop 0 row mac:     [recv requests as (rq, true) ; call getMAC(pre(rq.DstIP)) as (mac) ; send result rq]
+//@                          when pre(rq.Err) == nil && mac != nil && rq.DstMAC == mac && rq.Err == nil && rq.DstIP == pre(rq.DstIP) && rq.DstPort == pre(rq.DstPort) -> continue
+//@   loop 0 row nomac:   [recv requests as (rq, true) ; call getMAC(pre(rq.DstIP)) as (mac) ; send result rq]
+//@                          when pre(rq.Err) == nil && mac == nil && rq.Err != nil -> continue
